@@ -20,7 +20,7 @@ TECHNIQUE = "runtime twin monitor: predict on one deep copy vs first-arg-max of 
 RULE = ("47 policy combinations (TreeBandit+EpsilonGreedy(eps>0) excluded by the property) x histories with arm changes, "
         "warm start and partial_fit x query batches of 1-8 rows incl. far-away rows (empty neighbourhoods); non-trivial = a "
         "row with an exact tie for the maximum or an empty neighbourhood; distinct = (combo, row feature, history skeleton)")
-BUDGET = {"quick": {"cases": 48 * 8, "shards": 8}, "thorough": {"cases": 48 * 300, "shards": 16, "wall_s": 2400}}
+BUDGET = {"quick": {"cases": 48 * 16, "shards": 16}, "thorough": {"cases": 48 * 300, "shards": 16, "wall_s": 3600}}
 MIN = {"quick": {"evaluations": 1500, "nontrivial": 60, "counters": {"huge_queries": 10}},
        "thorough": {"evaluations": 50000, "nontrivial": 1500, "counters": {"huge_queries": 300}}}
 ASSUMPTIONS = ["NaN rows are judged only as the property states: all expectations NaN and the arm inside the support of the "
